@@ -111,7 +111,8 @@ Lemma step1 m : In m ms -> out1 m = [OSignVote PREVOTE h r (Bid hb ph)] /\ ready
 Proof.
   intro Hm. unfold out1, st1.
   destruct (run (m_env m) (m_state m) (proposal_inputs h p b ph)) as [s' os] eqn:Er. cbn [fst snd].
-  exact (phase1 (m_env m) h r p b hb ph Hbid Hhash Hone (Hval m Hm) idxs vals (m_state m) s' os (Hready m Hm) Er).
+  destruct (phase1 (m_env m) h r p b hb ph Hbid Hhash Hone (Hval m Hm) idxs vals (m_state m) s' os (Hready m Hm) Er) as (A & B0 & _).
+  auto.
 Qed.
 
 Lemma PV_eq : PV = map (dv PREVOTE) ms.
